@@ -12,7 +12,8 @@ LEVEL = "exploration"
 RULE = ("case = frame-size sequence + content seed + chunk partitions of the concatenated stream; "
         "'exh' cases enumerate ALL 2^(L-1) partitions of every stream of <=14 bytes built from <=3 frames, "
         "'rand' cases draw 1-8 frames (sizes incl. 1,2,3,4,255,256,1024,65535,65536,70000) and 24 seeded "
-        "partitions biased to cuts inside the 3-byte header, 'down' cases check outgoing framing incl. the "
+        "partitions biased to cuts inside the 3-byte header (every tenth of them on a layer object whose previous connection "
+        "was lost at an arbitrary byte, followed by CONNECTED), 'down' cases check outgoing framing incl. the "
         "2^24 refusal; distinct = distinct (frame sizes, partition) digests; non-trivial = at least one cut "
         "falls strictly inside a frame (header or payload)")
 COMPONENTS = {"real": ["yowsup.layers.noise.layer_noise_segments.YowNoiseSegmentsLayer", "yowsup.stacks.YowStack",
@@ -23,7 +24,7 @@ ASSUMPTIONS = ["six 1.17 shim on sys.path (pinned six 1.10 cannot import protobu
                "also runs passively inside every wire-world run (C04/C11/C16)"]
 BUDGET = {"quick": (1200, 60), "thorough": (40000, 600)}
 FAULTS = ["tcp_cut_in_header", "tcp_cut_in_payload", "tcp_coalesce"]
-PROBES = ["cut_inside_header", "frame_ge_64k", "one_byte_chunks", "oversize_refused"]
+PROBES = ["cut_inside_header", "frame_ge_64k", "one_byte_chunks", "oversize_refused", "connection_lost_inside_frame"]
 SHRINK = ["frames", "partitions"]
 EXHAUSTIVE = {"quick": False, "thorough": False}
 
@@ -89,6 +90,11 @@ def case(idx, tier, base):
     sizes = []
     for _ in range(n):
         sizes.append(r.choice(SIZES) if r.random() < 0.5 else r.randint(1, r.choice([8, 300, 5000])))
+    first = None
+    if idx % 10 == 8:
+        # the same layer object serves a second connection after the first one was lost at an arbitrary byte
+        fs = [r.choice([1, 2, 3, 4, 255, 256, 1024]) if r.random() < 0.5 else r.randint(1, 300) for _ in range(r.randint(1, 4))]
+        first = {"frames": fs, "cut": r.random(), "chunks": r.randint(1, 4)}
     total_len = sum(sizes) + 3 * n
     starts = []
     p = 0
@@ -112,7 +118,11 @@ def case(idx, tier, base):
             if total_len > 1:
                 cuts.add(r.randint(1, total_len - 1))
         parts.append(sorted(cuts))
-    return {"seed": seed, "kind": "rand", "frames": sizes, "partitions": parts}
+    c = {"seed": seed, "kind": "rand", "frames": sizes, "partitions": parts}
+    if first is not None:
+        c["first"] = first
+        c["partitions"] = parts[:8]
+    return c
 
 
 def _mk():
@@ -127,9 +137,11 @@ def _content(seed, sizes):
     return [r.randbytes(s) for s in sizes]
 
 
-def _check_partition(frames, data, cuts, boundaries):
-    """Feed one partition; returns None or (kind, detail)."""
-    st, bottom, seg, top = _mk()
+def _check_partition(frames, data, cuts, boundaries, world=None):
+    """Feed one partition (into a fresh stack, or into `world` = a stack that has seen an earlier connection);
+    returns None or (kind, detail)."""
+    st, bottom, seg, top = world or _mk()
+    base = len(top.up)
     pos = 0
     nfr = 0
     for c in list(cuts) + [len(data)]:
@@ -138,7 +150,7 @@ def _check_partition(frames, data, cuts, boundaries):
         bottom.toUpper(chunk)
         while nfr < len(frames) and boundaries[nfr] <= pos:
             nfr += 1
-        got = top.up
+        got = top.up[base:]
         if len(got) > nfr:
             extra = got[nfr]
             if nfr < len(frames) and bytes(extra) == frames[nfr]:
@@ -154,6 +166,45 @@ def _check_partition(frames, data, cuts, boundaries):
     if bottom.down:
         return ("extra", "receive path wrote %d items downward" % len(bottom.down))
     return None
+
+
+def _first_connection(case, viol, probes):
+    """A stack whose segments layer has already served a connection that was lost at an arbitrary byte; the next
+    connection has been announced (CONNECTED) and nothing of the old stream may influence the new one."""
+    from yowsup.layers import YowLayerEvent
+    from yowsup.layers.network import YowNetworkLayer
+    f = case["first"]
+    frames1 = _content(case["seed"] + 1, f["frames"])
+    data1 = b"".join(struct.pack(">I", len(x))[1:] + x for x in frames1)
+    cut = max(1, min(len(data1) - 1, int(f["cut"] * len(data1)))) if len(data1) > 1 else 1
+    st, bottom, seg, top = world = _mk()
+    r = stream(case["seed"], "first")
+    pts = sorted(set(r.randint(1, cut) for _ in range(f["chunks"] - 1))) + [cut]
+    pos = 0
+    for c in pts:
+        if c > pos:
+            bottom.toUpper(data1[pos:c])
+            pos = c
+    # complete frames of the prefix must have been delivered
+    done = 0
+    p = 0
+    for x in frames1:
+        p += 3 + len(x)
+        if p <= cut:
+            done += 1
+    if [bytes(g) for g in top.up] != frames1[:done]:
+        viol.append({"sig": "C05/up/first-connection", "detail": "first connection: %d frames delivered, %d complete in the "
+                                                                 "first %d bytes" % (len(top.up), done, cut)})
+    p = 0
+    inside = True
+    for x in frames1:
+        if p == cut:
+            inside = False
+        p += 3 + len(x)
+    if inside and cut != len(data1):
+        probes["connection_lost_inside_frame"] = probes.get("connection_lost_inside_frame", 0) + 1
+    bottom.emitEvent(YowLayerEvent(YowNetworkLayer.EVENT_STATE_CONNECTED))
+    return world
 
 
 def run(case):
@@ -259,7 +310,12 @@ def run(case):
             if len(cuts) == L - 1 and L > 1:
                 probes["one_byte_chunks"] += 1
             h.update(repr(cuts[:64]).encode())
-            bad = _check_partition(frames, data, cuts, boundaries)
+            world = None
+            if case.get("first"):
+                world = _first_connection(case, viol, probes)
+                if viol:
+                    break
+            bad = _check_partition(frames, data, cuts, boundaries, world)
             if bad:
                 viol.append({"sig": "C05/up/%s" % bad[0],
                              "detail": "frames %s cuts %s: %s" % (sizes, cuts[:20], bad[1])})
